@@ -91,7 +91,7 @@ def RL.errClose (k : RLErrKind) : Step RL RLDone := .done (.err ⟨k, none⟩)
 
 /-- `parse_http_std_method` on the `len` bytes of the method -/
 def stdMethodOf (m : List UInt8) : Nat :=
-  match Http.stdMethods.find? (fun e => strBytes e.1 == m) with
+  match Http.stdMethodBytes.find? (fun e => e.1 == m) with
   | some e => e.2
   | none => Http.mthdOther
 
